@@ -211,6 +211,7 @@ func init() {
 			{Pkg: waddrmgrPkg, Fn: "ZzC03Bip84L3", Tiers: "qt", Reach: []string{"c03-end", "extended", "privkey-checked", "restarted"}, Bound: "scope BIP0084, account 0, every history of 3 operations from {next-external(1..2), next-internal, extend-external, mark-used, lock, unlock, restart, derive-from-path}; after every step every issued address is looked up and checked"},
 			{Pkg: waddrmgrPkg, Fn: "ZzC03Bip84L3Locked", Tiers: "qt", Reach: []string{"c03-end", "privkey-checked"}, Bound: "same, starting locked (keys derived on unlock)"},
 			{Pkg: waddrmgrPkg, Fn: "ZzC03LegacySeedL2", Tiers: "qt", Reach: []string{"c03-end", "legacy-rule-differs-from-bip32", "privkey-checked"}, Bound: "a second concrete seed whose m/84'/0' private key has a leading zero byte (btcsuite's legacy hardened rule differs from BIP32 below it), 2 operations, account 0"},
+			{Pkg: waddrmgrPkg, Fn: "ZzC03LegacyPurposeSeedL2", Tiers: "qt", Reach: []string{"c03-end", "legacy-rule-differs-from-bip32-at-the-coin-type-key", "privkey-checked"}, Bound: "a third concrete seed whose m/84' private key has a leading zero byte (the legacy rule departs from BIP32 one level higher, at the coin-type key), 2 operations, account 0"},
 			{Pkg: waddrmgrPkg, Fn: "ZzC03AcctsL2", Tiers: "qt", Reach: []string{"c03b-end", "account-created", "imported", "passphrase-changed", "recreated-compared", "privkey-checked", "extended"}, Bound: "scope BIP0084, accounts 0 and a second seeded account created during the history, every history of 2 operations from {next-external(1..2), next-internal, extend-internal, lock, unlock, restart, private passphrase change, new account, import private key + script, derive-from-path} on a chosen account; additionally the address must ENCODE the expected key in the expected format (oracle built with btcutil only), imported key/script returned unchanged, and a second wallet created from the same seed must issue the same addresses"},
 			{Pkg: waddrmgrPkg, Fn: "ZzC03ImportedL3", Tiers: "qt", Reach: []string{"c03b-end", "imported-account", "extended", "restarted", "passphrase-changed"}, Bound: "imported extended-public-key account (child b/i of the imported key) under scope BIP0049Plus with an overriding address schema (nested witness on both branches), histories of 3 operations from {next-external, next-internal, extend-internal, lock, unlock, restart, passphrase change}"},
 			{Pkg: waddrmgrPkg, Fn: "ZzC03ImportedTaprootL2", Tiers: "qt", Reach: []string{"c03b-end", "imported-account"}, Bound: "imported account under scope BIP0044 overriding to taproot (external) / witness (internal) addresses, 2 operations"},
